@@ -264,6 +264,54 @@ def h_face_history(c, r, S):
     c.prove(bad is None, "api:same-index-on-another-face:warm==cold", info={"candidate": True, "pair": bad})
 
 
+# ---------------------------------------------------------------------------------- long concrete histories
+def _long_calls(kind, seed):
+    from .c17_long import long_calls
+    return long_calls(kind, seed)
+
+
+def _unused_long_calls(kind, seed):
+    import random
+    import a5
+    import a5.core.hilbert as hh
+    rnd = random.Random(seed + 17)
+    calls = []
+    if kind == "hilbert":
+        for o in ("uv", "vu", "uw", "wu", "vw", "wv"):
+            for h in (1, 2, 3, 5, 9, 11, 12, 19, 21, 28):
+                for s0 in list(range(0, 24)) + [4 ** h - 1, 4 ** h // 2]:
+                    if s0 < 4 ** h:
+                        calls.append(("s_to_anchor(%d,%d,%s)" % (s0, h, o),
+                                      lambda s0=s0, h=h, o=o: (lambda a: (a.k, tuple(a.offset), tuple(a.flips)))(hh.s_to_anchor(s0, h, o))))
+    else:
+        pts = [(rnd.uniform(-180, 180), rnd.uniform(-90, 90)) for _ in range(120)]
+        pts += [(rnd.uniform(-180, 180), rnd.choice((-1, 1)) * rnd.uniform(84, 90)) for _ in range(120)]
+        pts += [(rnd.uniform(-180, 180), rnd.choice((-1, 1)) * rnd.uniform(80, 90)) for _ in range(160)]
+        for p in pts:
+            for r in (0, 1, 3, 9, 24):
+                calls.append(("lonlat_to_cell(%r,%d)" % (p, r), lambda p=p, r=r: a5.lonlat_to_cell(p, r)))
+    return calls
+
+
+def h_long_history(c, kind, seed=0):
+    """concrete differential run: every call evaluated from the import-time module state (cold), then all calls in one
+    long history (twice, second time reversed) - each result must equal its cold value.  Not solver-decided."""
+    calls = _long_calls(kind, seed)
+    snap = shared.snapshot_state()
+    cold = []
+    for name, fn in calls:
+        shared.restore_state(snap)
+        cold.append(fn())
+    shared.restore_state(snap)
+    badcall = None
+    for order in (range(len(calls)), reversed(range(len(calls)))):
+        for i in order:
+            if calls[i][1]() != cold[i]:
+                badcall = calls[i][0]
+    shared.restore_state(snap)
+    c.prove(badcall is None, "long-history:every-result==its-cold-value(%s)" % kind, info={"candidate": True, "call": badcall, "kind": kind})
+
+
 # ---------------------------------------------------------------------------------- float API histories
 def h_api_history(c, i, j):
     import a5
@@ -364,6 +412,8 @@ def jobs(tier, seed):
         pairs = [(i, j) for i in range(n) for j in range(n) if (i + j) % 3 == 0 or i == j]
     for i, j in pairs:
         js.append(Job("api-history[%d,%d]" % (i, j), "h_api_history", {"i": i, "j": j}, {"logic": None}, weight=1))
+    for kind in ("hilbert", "lonlat_to_cell"):
+        js.append(Job("long-history[%s]" % kind, "h_long_history", {"kind": kind, "seed": seed}, {"logic": None}, weight=20))
     for f in ("forward", "inverse"):
         for g in ("forward", "inverse"):
             js.append(Job("singleton-history[authalic.%s;%s]" % (f, g), "h_singleton_history", {"f": f, "g": g}, dict(o), weight=2))
@@ -499,6 +549,31 @@ print("ok")
 """ % (na, aa, nb, ab)
         script = "SRC = " + repr(script) + "\n" + script
         return {"script": script, "description": "API history", "candidate": True}
+    if f == "h_long_history":
+        body = _PRE + """
+import os
+from checks.c17_long import long_calls
+kind, seed = %r, %d
+calls = long_calls(kind, seed)
+if os.environ.get("C17_COLD"):
+    i = int(os.environ["C17_COLD"]); print(json.dumps(calls[i][1]())); sys.exit(0)
+first = None
+for order in (range(len(calls)), reversed(range(len(calls)))):
+    res = {}
+    for i in order:
+        res[i] = json.loads(json.dumps(calls[i][1]()))
+    for i in (range(0, len(calls), max(1, len(calls) // 400))):
+        pass
+# compare a spread of calls (and the one the check named) with fresh-interpreter values
+import random
+rnd = random.Random(1)
+idx = sorted(set(rnd.sample(range(len(calls)), min(60, len(calls))) + [i for i, cl in enumerate(calls) if cl[0] == %r]))
+for i in idx:
+    cold = json.loads(subprocess.run([sys.executable, "-c", SRC], capture_output=True, text=True, env=dict(os.environ, C17_COLD=str(i))).stdout)
+    if res[i] != cold: bad("history-dependent:" + calls[i][0].split("(")[0])
+print("ok")
+""" % (p["kind"], p.get("seed", 0), info.get("call"))
+        return {"script": "SRC = " + repr(body) + "\n" + body, "description": "long history", "candidate": True}
     if f == "h_singleton_history":
         return {"script": _PRE + """
 import math
